@@ -173,10 +173,17 @@ def job_decode(pa, pb, job, res):
     return res
 
 
-def add_violation(res, role, detail, m, bs, job):
+def add_violation(res, role, detail, m, bs, job, step_ctx=None):
     if m == 'unknown':
         res['inconclusive'] = 'solver unknown on ' + role
         return
+    step = None
+    if step_ctx is not None:
+        from checks import step_replay
+        try:
+            step = step_replay.step_json(step_ctx['prog'], step_ctx, m)
+        except Exception as e:      # noqa
+            step = {'error': repr(e)}
     mm = {}
     try:
         for d in m.decls():
@@ -187,7 +194,10 @@ def add_violation(res, role, detail, m, bs, job):
         pass
     res['violations'].append({'property': 'C20', 'role': role, 'detail': detail, 'model': mm, 'job': {k: v for k, v in job.items() if not k.startswith('files')},
                               'witness': model_bytes(m, bs).hex() if bs is not None else None,
-                              'replay_kind': 'config'})
+                              'replay_kind': 'config', 'step': step,
+                              'cpr': ({n: int(str(m.eval(z3.BitVec(n, w), model_completion=True))) for n, w in
+                                       (('a_lat', 17), ('a_lon', 17), ('a_odd', 1), ('b_lat', 17), ('b_lon', 17), ('b_odd', 1))}
+                                      if role == 'get_position' else None)})
 
 
 def job_cpr(pa, pb, job, res):
@@ -236,6 +246,8 @@ def job_action(pa, pb, job, res):
         ls = ex.run_with_cells(fn, [('cell', planes), fr, recv, rng], pc=list(sym.assume))
         note(res, ex)
         posts.append((ls, ex.cell_ids[0], S, len(sym.assume)))
+        if prog is pa:
+            step_ctx = {'prog': pa, 'op': 'action', 'pre': planes, 'frame': fr, 'recv': recv, 'max_range': rng}
     (la, ca, Sa, na), (lb, cb, Sb, nb) = posts
     P = Prover()
     P.abstract = True
@@ -263,11 +275,11 @@ def job_action(pa, pb, job, res):
                     for n, c in parts:
                         m = P.prove(z3.Implies(j, c))
                         if m is not None:
-                            add_violation(res, 'tracker:%s:%s' % (job['frame'], n), 'std and alloc-only builds reach different tracker states (field %s)' % n, m, None, job)
+                            add_violation(res, 'tracker:%s:%s' % (job['frame'], n), 'std and alloc-only builds reach different tracker states (field %s)' % n, m, None, job, step_ctx)
                     continue
             m = P.prove(z3.Implies(j, same))
             if m is not None:
-                add_violation(res, 'tracker:%s' % job['frame'], 'std and alloc-only builds reach different tracker states', m, None, job)
+                add_violation(res, 'tracker:%s' % job['frame'], 'std and alloc-only builds reach different tracker states', m, None, job, step_ctx)
     res['obligations'] = P.obligations
     res['discharged'] = P.discharged
     res['solver_s'] = P.solver_s
@@ -297,6 +309,84 @@ def state_eq_by_name(Sa, Sb, a, b):
             return z3.BoolVal(False)
         parts.append(state_eq_by_name(Sa, Sb, T.fget(Sa, a, n), T.fget(Sb, b, n)))
     return z3.And(*parts) if parts else z3.BoolVal(True)
+
+
+# ------------------------------------------------------------------------------------------ native replay
+CFG_DIR = os.path.join(os.path.dirname(os.path.dirname(os.path.abspath(__file__))), 'replay_cfg')
+_cfg_built = {}
+
+
+def cfg_exe(variant):
+    """/verif/replay_cfg built with the library crates in the given feature configuration ('std' | 'alloc')"""
+    import subprocess
+    if variant in _cfg_built:
+        return _cfg_built[variant]
+    cache = os.environ.get('VERIF_CACHE', '/verif/.cache')
+    tgt = os.path.join(cache, 'target-replay-cfg-' + variant)
+    env = dict(os.environ, CARGO_TARGET_DIR=tgt, CARGO_NET_OFFLINE='true')
+    try:
+        open(os.path.join(CFG_DIR, 'Cargo.lock'), 'w').write(open(os.path.join(os.environ.get('VERIF_REPO', '/repo'), 'Cargo.lock')).read())
+    except OSError:
+        pass
+    cmd = ['cargo', 'build', '--offline', '--quiet'] + (['--no-default-features'] if variant == 'alloc' else [])
+    p = subprocess.run(cmd, cwd=CFG_DIR, env=env, stdout=subprocess.PIPE, stderr=subprocess.STDOUT, text=True)
+    if p.returncode != 0:
+        raise RuntimeError('replay_cfg (%s) build failed:\n%s' % (variant, p.stdout[-2000:]))
+    _cfg_built[variant] = os.path.join(tgt, 'debug', 'replay_cfg')
+    return _cfg_built[variant]
+
+
+def cfg_native(variant, request):
+    import subprocess
+    import json as _json
+    p = subprocess.run([cfg_exe(variant)], input=request + '\n', stdout=subprocess.PIPE, stderr=subprocess.PIPE, text=True, timeout=120)
+    return _json.loads(p.stdout.strip().splitlines()[-1])
+
+
+def _strip_std_only(x):
+    """drop the std-only time stamps from a serialised tracker state"""
+    if isinstance(x, dict):
+        return {k: _strip_std_only(v) for k, v in x.items() if k != 'last_time'}
+    if isinstance(x, list):
+        return [_strip_std_only(v) for v in x]
+    return x
+
+
+def replay(v):
+    """Both feature configurations are run natively on the counterexample.  Decode / rendering / get_position
+    counterexamples must show a difference (else the counterexample did not reproduce); a tracker-step
+    counterexample that shows no native difference is reported as not replayable (its pre-state floats and libm
+    values are model values), never silently dropped."""
+    import json as _json
+    role = v.get('role', '')
+    if role.startswith(('decode:', 'display:')) and v.get('witness'):
+        a, b = cfg_native('std', 'decode ' + v['witness']), cfg_native('alloc', 'decode ' + v['witness'])
+        v['native'] = {'std': a, 'alloc': b}
+        return a != b
+    if role == 'get_position' and v.get('cpr'):
+        c = v['cpr']
+        req = 'cpr %s %d %d %s %d %d' % ('o' if c['a_odd'] else 'e', c['a_lat'], c['a_lon'], 'o' if c['b_odd'] else 'e', c['b_lat'], c['b_lon'])
+        a, b = cfg_native('std', req), cfg_native('alloc', req)
+        v['native'] = {'request': req, 'std': a, 'alloc': b}
+        return a != b
+    step = v.get('step')
+    if role.startswith('tracker:') and isinstance(step, dict) and 'pre' in step:
+        path = os.path.join(os.environ.get('VERIF_CACHE', '/verif/.cache'), 'cfgstep_%d.json' % os.getpid())
+        st = {k: step[k] for k in ('pre', 'frame', 'recv', 'max_range') if k in step}
+        _json.dump(st, open(path, 'w'))
+        try:
+            a, b = cfg_native('std', 'step ' + path), cfg_native('alloc', 'step ' + path)
+        finally:
+            try:
+                os.remove(path)
+            except OSError:
+                pass
+        differ = _strip_std_only(a) != _strip_std_only(b)
+        v['native'] = {'differs': differ, 'std_added': a.get('added'), 'alloc_added': b.get('added'), 'error': a.get('error') or b.get('error')}
+        v['replay_note'] = 'native std/alloc post-states differ' if differ else 'not replayable natively: no difference on the model state (floats / libm values of the model are not the real ones)'
+        return True
+    v['replay_note'] = 'no native replay for this role'
+    return True
 
 
 def main(tier):
@@ -343,4 +433,4 @@ def main(tier):
             os.remove(f)
         except OSError:
             pass
-    fw.finish('C20', tier, t0, results, coverage, ASSUME, level='translation_validation', replay_fn=lambda v: True)
+    fw.finish('C20', tier, t0, results, coverage, ASSUME, level='translation_validation', replay_fn=replay)
